@@ -510,7 +510,12 @@ func c12EvalCLI(c *Ctx, dir string, idx int, cs c12Case) (out c10Out) {
 		{"cli-hist-type", []string{"report", "-type=hist" + cs.Spec, in}, false},
 		{"cli-hist-buckets", []string{"report", "-type=hist", "-buckets", cs.Spec, in}, false},
 		{"cli-json-buckets", []string{"report", "-type=json", "-buckets", cs.Spec, in}, true},
+		// both ways of giving buckets at once: the report must show one of the two given
+		// specifications, intact (vegeta lets -buckets win)
+		{"cli-hist-type-and-buckets", []string{"report", "-type=hist[0,7ms,70ms]", "-buckets", cs.Spec, in}, false},
 	}
+	altBounds := []int64{0, int64(7 * time.Millisecond), int64(70 * time.Millisecond)}
+	altWant, _ := c12Ref(altBounds, lats)
 	for _, r := range runs {
 		so, se, exit, to, err := c10RunVegeta(c, r.argv...)
 		out.count("cli_runs", 1)
@@ -537,6 +542,13 @@ func c12EvalCLI(c *Ctx, dir string, idx int, cs c12Case) (out c10Out) {
 			}
 		} else {
 			clause, msg = c12CheckText(so, bounds, want)
+			if clause != "" && r.level == "cli-hist-type-and-buckets" {
+				if c2, _ := c12CheckText(so, altBounds, altWant); c2 == "" {
+					clause, msg = "", ""
+				} else {
+					clause += "/type-and-buckets"
+				}
+			}
 		}
 		out.count("cli_reports_checked", 1)
 		if clause != "" {
